@@ -890,7 +890,9 @@ theorem bcast_core (s : State) (hd : Nat) (w : Bool) : (s.bcast hd w).1.core = s
   · rfl
   · split
     · cases w <;> simp [State.core]
-    · rfl
+    · split
+      · cases w <;> simp [State.core]
+      · rfl
 
 theorem xspend_core (s : State) (v2 : Bool) (id back rest : Nat) : (s.xspend v2 id back rest).1.core = s.core := by
   unfold State.xspend
